@@ -158,7 +158,39 @@ fn main() {
                 &["bounded-stand-in", "auth_state::lemma.lemma_merged_heads_independent_of_head_order_without_conditions", kernel[0], kernel[1]]);
         }
     }
+    // ---- part 3: nested groups reached over several paths with different access caps (diamonds). Groups Y, X, R: Y holds
+    // member D with level ly; X contains group Y with level lxy; R contains X with level lrx and Y with level lry. All level
+    // combinations (sub-groups cannot be managers), both delivery orders of the two adds to R, 16 fresh replicas each
+    // (every replica has its own HashMap seeds) with 2 queries: every replica must report the same members / groups of R.
+    for ly in 0..3u8 { for lxy in 0..3u8 { for lrx in 0..3u8 { for lry in 0..3u8 {
+        let mk = |id: u32, deps: Vec<u32>, group: char, action: GroupAction<char, Cond>| Op { id, author: 'A', deps, group, action };
+        let ops = vec![
+            mk(0, vec![], 'Y', GroupAction::Create { initial_members: vec![(GroupMember::Individual('A'), access(None, 3)), (GroupMember::Individual('D'), access(None, ly))] }),
+            mk(1, vec![0], 'X', GroupAction::Create { initial_members: vec![(GroupMember::Individual('A'), access(None, 3)), (GroupMember::Group('Y'), access(None, lxy))] }),
+            mk(2, vec![1], 'R', GroupAction::Create { initial_members: vec![(GroupMember::Individual('A'), access(None, 3))] }),
+            mk(3, vec![2], 'R', GroupAction::Add { member: GroupMember::Group('X'), access: access(None, lrx) }),
+            mk(4, vec![2], 'R', GroupAction::Add { member: GroupMember::Group('Y'), access: access(None, lry) }),
+        ];
+        let mut answers: BTreeSet<(Vec<(char, Option<u8>, u8)>, Vec<(char, Option<u8>, u8)>)> = BTreeSet::new();
+        let mut all_ok = true;
+        for rep in 0..16 {
+            let order: [usize; 5] = if rep % 2 == 0 { [0, 1, 2, 3, 4] } else { [0, 1, 2, 4, 3] };
+            let mut y = G::init();
+            for i in order { match process(y, &ops[i]) { Ok(y2) => y = y2, Err(y2) => { y = y2; all_ok = false; } } }
+            for _ in 0..2 {
+                n += 1;
+                let mut m: Vec<(char, Option<u8>, u8)> = y.members('R').into_iter().map(|(id, a)| (id, a.conditions.map(|c| c.0), rank(&a.level))).collect(); m.sort();
+                let mut g: Vec<(char, Option<u8>, u8)> = y.groups('R').into_iter().map(|(id, a)| (id, a.conditions.map(|c| c.0), rank(&a.level))).collect(); g.sort();
+                answers.insert((m, g));
+            }
+        }
+        if all_ok && answers.len() > 1 && reported.insert("nested-group-members-differ-between-replicas") {
+            rp_core::report(true, "nested-group-members-differ-between-replicas", json!({"ops": ops.iter().map(show_op).collect::<Vec<_>>(), "replicas": 16}),
+                json!({"distinct_answers(members of R, groups of R)": answers.iter().map(|(m, g)| json!({"members": m.iter().map(|(id, c, r)| json!([id.to_string(), c, r])).collect::<Vec<_>>(), "groups": g.iter().map(|(id, c, r)| json!([id.to_string(), c, r])).collect::<Vec<_>>()})).collect::<Vec<_>>()}),
+                &["bounded-stand-in"]);
+        }
+    } } } }
     println!("{}", json!({"summary": true, "evaluations": n, "distinct_nontrivial": n, "exhaustive": false,
-        "rule": "part 1: all ordered pairs of distinct accesses over conditions {None,0,1} x 4 levels as two concurrent access changes of one member, both delivery orders, 24 repeated queries each; part 2: 400 random histories of <= 10 operations created concurrently by 3 replicas (create/add/remove/promote/demote/nested group, unconditioned), each delivered to 4 fresh replicas in random causal orders, 3 repeated queries",
+        "rule": "part 3: diamond of nested groups (Y in X, X and Y in R) over all 81 level combinations x 16 replicas x 2 queries; part 1: all ordered pairs of distinct accesses over conditions {None,0,1} x 4 levels as two concurrent access changes of one member, both delivery orders, 24 repeated queries each; part 2: 400 random histories of <= 10 operations created concurrently by 3 replicas (create/add/remove/promote/demote/nested group, unconditioned), each delivered to 4 fresh replicas in random causal orders, 3 repeated queries",
         "bound": "2 groups, 4 actors, <= 10 operations per history, 400 histories, fixed seed", "violating_classes": reported}));
 }
